@@ -13,6 +13,32 @@ class Context:
         self.rep = rep
         self._names: dict[str, Names] = {}
         self._cache: dict[str, T.Any] = {}
+        self._install_guard_expander()
+
+    def _install_guard_expander(self) -> None:
+        import ast as _ast
+
+        from . import guards
+        from .load import func_of
+
+        busy: set[int] = set()
+
+        def expander(test: _ast.AST) -> _ast.AST | None:
+            if id(test) in busy or not any(isinstance(n, _ast.Name) for n in _ast.walk(test)):
+                return None
+            if "escape" not in self._cache:
+                return None  # the escape fixpoint (which the CFG depends on) is still being computed
+            f = func_of(test)
+            if f is None:
+                return None
+            busy.add(id(test))
+            try:
+                alts = self.prov.expand(test, f, test, pure=True)
+            finally:
+                busy.discard(id(test))
+            return alts[0] if len(alts) == 1 else None
+
+        guards.set_expander(expander)
 
     def names(self, tree: str) -> Names:
         if tree not in self._names:
